@@ -518,6 +518,12 @@ def rule_percentile(ctx):
             keys, axn = T.kw(c, 'keys'), T.kw(c, 'axis')
             none = [pol for a, pol in p.guards if a == T.mkcmp('is', P_('newaxis'), T.CONST_NONE)]
             want_ax = ('binop', '+', nm, const('_percentile')) if none == [True] else P_('newaxis')
+            isnone = T.mkcmp('is', P_('newaxis'), T.CONST_NONE)
+            if axn is not None and axn[0] == 'ifexp' and not none and axn[1] in (isnone, ('unop', 'not', isnone), T.mkcmp('is not', P_('newaxis'), T.CONST_NONE)):
+                # the default name chosen by a conditional expression instead of a statement: both alternatives as they must be
+                then_, else_ = (axn[2], axn[3]) if axn[1] == isnone else (axn[3], axn[2])
+                if then_ == ('binop', '+', nm, const('_percentile')) and else_ == P_('newaxis'):
+                    axn = want_ax
             if keys != PCT or axn != want_ax:
                 ctx.violated('R7', fi, T.show(c)[:160], "several percentiles are stacked along a new first axis named '<axis>_percentile' and labelled by pct",
                              node=p.node)
